@@ -14,11 +14,11 @@ import (
 )
 
 type fnCFG struct {
-	g     *cfg.CFG
-	info  *types.Info
-	body  *ast.BlockStmt
-	preds map[*cfg.Block][]*cfg.Block
-	dom   map[*cfg.Block]map[*cfg.Block]bool // dom[b] = set of blocks that dominate b
+	g      *cfg.CFG
+	info   *types.Info
+	body   *ast.BlockStmt
+	preds  map[*cfg.Block][]*cfg.Block
+	dom    map[*cfg.Block]map[*cfg.Block]bool // dom[b] = set of blocks that dominate b
 	lockIn map[*cfg.Block]map[string]bool
 }
 
